@@ -308,6 +308,19 @@ func generate(r *hx.Rng) []cs {
 			}
 		}
 	}
+	for i := 0; i < *nDir/4; i++ {
+		peers, lid, retry, rl := genPeers(r)
+		rls := "0"
+		if rl {
+			rls = "1"
+		}
+		cases = append(cases, cs{id: next(), kind: "G", f: []string{fmt.Sprint(lid), fmt.Sprint(retry), rls,
+			fmt.Sprintf("%x", 1+r.Pick(5)), fmt.Sprintf("%x", 1+r.Pick(500)), peersStr(peers)}})
+	}
+	for i := 0; i < *nDir/2; i++ {
+		ents, src, t, x, skip := genReuse(r)
+		cases = append(cases, cs{id: next(), kind: "H", f: []string{hx.H([]byte(src)), fmt.Sprintf("%x", t), fmt.Sprintf("%x", x), fmt.Sprint(skip), hentsStr(ents)}})
+	}
 	for i := 0; i < *nPlan; i++ {
 		cur, ck := genPlan(r)
 		cases = append(cases, cs{id: next(), kind: "F", f: []string{fentsStr(cur), fentsStr(ck)}})
@@ -535,6 +548,19 @@ func main() {
 			if coll != "" {
 				fmt.Fprintf(os.Stderr, "E %s r1=%d r2=%d sst number reused with other content:%s\n", c.f[0], r1, r2, coll)
 			}
+		case "H":
+			t, _ := strconv.ParseUint(c.f[1], 16, 64)
+			i, _ := strconv.ParseUint(c.f[2], 16, 64)
+			skip, _ := strconv.Atoi(c.f[3])
+			co.Printf("%s\tH\t%s\n", c.id, strings.Join(c.f, "\t"))
+			io.Printf("%s\t%s\n", c.id, implReuse(parseHents(c.f[4]), string(hx.UnH(c.f[0])), t, i, skip))
+		case "G":
+			lid, _ := strconv.ParseUint(c.f[0], 10, 64)
+			retry, _ := strconv.Atoi(c.f[1])
+			t, _ := strconv.ParseUint(c.f[3], 16, 64)
+			i, _ := strconv.ParseUint(c.f[4], 16, 64)
+			co.Printf("%s\tG\t%s\n", c.id, strings.Join(c.f, "\t"))
+			io.Printf("%s\t%s\n", c.id, implSource(parsePeers(c.f[5]), lid, retry, c.f[2] == "1", t, i))
 		case "CB", "CR", "CF":
 			// crash cases: <eng> <point | t<micros>> <fillKB> <seed>
 			kb, _ := strconv.Atoi(c.f[2])
